@@ -47,8 +47,14 @@ func (x *h) batchDeletes(thorough bool) error {
 			// two bystanders plus the IDs of the batch
 			content := map[string][]byte{}
 			var batch []imap.InternalMessageID
+			bnd := append([]imap.InternalMessageID{x.newID(), x.newID()}, x.boundaryIDs()...) // bystanders random, then nil, ff, …
+			nput := 0
 			put := func() imap.InternalMessageID {
 				id := x.newID()
+				if nput < len(bnd) {
+					id = bnd[nput]
+				}
+				nput++
 				d := x.content([]string{"text", "rand"}[ctx.Rng.Intn(2)], []int{0, 10, 5000}[ctx.Rng.Intn(3)])
 				content[id.String()] = d
 				if err := base.Set(id, bytes.NewReader(d)); err != nil {
